@@ -7,7 +7,7 @@ import sys
 
 HERE = os.path.dirname(os.path.dirname(os.path.abspath(__file__)))
 rows = {}
-for path in sys.argv[1:]:
+for path in (sys.argv[1:] or [os.path.join(HERE, 'seeded', 'matrix_log.txt')]):
     for line in open(path):
         m = re.match(r'^(\S+) check=(\S+) (caught|MISSED|ERROR\(\d+\))\s*(.*)$', line.strip())
         if m:
